@@ -44,6 +44,21 @@ def is_subseq(small, big):
     return all(x in it for x in small)
 
 
+class ByteLoopParser(Parser):
+    """A user subclass that wants to see every byte: feed() is a loop over feed_byte()."""
+
+    def feed(self, data):
+        for b in data:
+            self.feed_byte(b)
+
+
+class ChunkParser(Parser):
+    """The other way round: feed_byte() hands a one-item chunk to feed()."""
+
+    def feed_byte(self, byte):
+        self.feed([byte])
+
+
 def judge_stream(ctx, data, kind, arrays=True):
     case = lambda: {'kind': 'stream', 'bytes': list(data), 'via': kind}  # noqa: E731
     key = kind
@@ -126,16 +141,23 @@ def judge_stream(ctx, data, kind, arrays=True):
     conts = (('list', list), ('tuple', tuple), ('bytes', bytes), ('bytearray', bytearray), ('generator', lambda d: (b for b in d)),
              ('iter', lambda d: iter(list(d))), ('map', lambda d: map(int, d)), ('memoryview', lambda d: memoryview(bytes(d))),
              ('deque', collections.deque))
-    entries = ('parse_all', 'Parser(data)', 'parse')
+    entries = ('parse_all', 'Parser(data)', 'parse', 'subclass: feed() loops over feed_byte()', 'subclass: feed_byte() calls feed()')
     h = sum((i + 1) * b for i, b in enumerate(data)) + len(data)
     for j in (0,):
-        ename = entries[h % 3]
-        cname, conv = conts[(h // 3) % len(conts)]
+        ename = entries[h % 5]
+        cname, conv = conts[(h // 5) % len(conts)]
         try:
             if ename == 'parse_all':
                 got = mido.parse_all(conv(data))
             elif ename == 'Parser(data)':
                 got = list(Parser(conv(data)))
+            elif ename.startswith('subclass: feed()'):
+                got = list(ByteLoopParser(conv(data)))
+            elif ename.startswith('subclass: feed_byte()'):
+                sp = ChunkParser()
+                for b in conv(data):
+                    sp.feed_byte(b)
+                got = list(sp)
             else:
                 first = mido.parse(conv(data))
                 got = [first] if first is not None else []
